@@ -4,6 +4,7 @@ import (
 	"context"
 	"encoding/hex"
 	"fmt"
+	"math"
 
 	"github.com/alephium/wormhole-fork/node/pkg/common"
 	"github.com/alephium/wormhole-fork/node/pkg/db"
@@ -67,6 +68,15 @@ func (s *PublicrpcServer) GetLastHeartbeats(ctx context.Context, req *publicrpcv
 	return resp, nil
 }
 
+// validateChainID rejects chain ids that do not fit the 16 bits of a Wormhole chain id: converting such a value
+// to vaa.ChainID would silently alias another chain's identifier.
+func validateChainID(chainID publicrpcv1.ChainID) error {
+	if chainID.Number() < 0 || chainID.Number() > math.MaxUint16 {
+		return status.Error(codes.InvalidArgument, fmt.Sprintf("invalid chain id: %d", chainID.Number()))
+	}
+	return nil
+}
+
 func decodeEmitterAddress(emitterAddress string) (*vaa.Address, error) {
 	address, err := hex.DecodeString(emitterAddress)
 	if err != nil {
@@ -84,6 +94,13 @@ func decodeEmitterAddress(emitterAddress string) (*vaa.Address, error) {
 func (s *PublicrpcServer) GetSignedVAA(ctx context.Context, req *publicrpcv1.GetSignedVAARequest) (*publicrpcv1.GetSignedVAAResponse, error) {
 	if req.MessageId == nil {
 		return nil, status.Error(codes.InvalidArgument, "no message ID specified")
+	}
+
+	if err := validateChainID(req.MessageId.EmitterChain); err != nil {
+		return nil, err
+	}
+	if err := validateChainID(req.MessageId.TargetChain); err != nil {
+		return nil, err
 	}
 
 	emitterAddress, err := decodeEmitterAddress(req.MessageId.EmitterAddress)
@@ -120,6 +137,13 @@ func validateBatchSize(size int) error {
 
 func (s *PublicrpcServer) GetNonGovernanceVAABatch(ctx context.Context, req *publicrpcv1.GetNonGovernanceVAABatchRequest) (*publicrpcv1.GetNonGovernanceVAABatchResponse, error) {
 	if err := validateBatchSize(len(req.Sequences)); err != nil {
+		return nil, err
+	}
+
+	if err := validateChainID(req.EmitterChain); err != nil {
+		return nil, err
+	}
+	if err := validateChainID(req.TargetChain); err != nil {
 		return nil, err
 	}
 
